@@ -2,6 +2,6 @@ SPECIFICATION Spec
 CONSTANTS
   MaxDepth = 3
   Mode = "syntax"
-  Contexts = {"field", "into_target", "variant_field", "tuple_field"}
+  Contexts = {"field", "into_target", "variant_field", "tuple_field", "into_dup"}
 INVARIANTS TypeOK TypedSane
 CHECK_DEADLOCK FALSE
